@@ -251,7 +251,40 @@ def c05(ctx):
                                "GPG and Sigstore key types are not concretised"])
 
 
+# ---------------------------------------------------------------------------
+# C06  rules consulted for a path are exactly those of the documented delegation walk
+
+def c06(ctx):
+    quick = ctx.quick()
+    mod = 41 if quick else 13
+    consts = dict(MaxFiles=3, MaxPerFile=2 if quick else 3, MaxTotal=3, EmitMod=mod, EmitRes=ctx.seed % mod)
+    mc = model_check(ctx, "MC_Delegations", dict(constants=consts, invariants=["Refines"], constraints=["Emit"]), timeout=7200)
+    scns = [r for r in mc.records if r.get("t") == "SCN"]
+    if not scns:
+        raise Infra("TLC emitted no scenarios")
+    scn_path = os.path.join(ctx.scratch, "scn.ndjson")
+    write_ndjson(scn_path, scns)
+    trace = os.path.join(ctx.scratch, "trace.ndjson")
+    run_vh(ctx, ["delegations", "-scn", scn_path, "-out", trace, "-seed", ctx.seed, "-n", 1 if quick else 4])
+    cls = validate_trace(ctx, "Trace_Delegations", trace, {"Known": set(), "AsBuilt": set()})
+    lines = None
+    tally = Tally(ctx)
+    for rec in cls:
+        r = rec["r"]
+        item = None
+        if r["cls"] != "conform":
+            if lines is None:
+                lines = {x["id"]: x for x in read_ndjson(trace)}
+            item = {"id": rec["id"], "why": r.get("why"), "scn": lines[rec["id"]]["scn"], "obs": lines[rec["id"]]["obs"]}
+        tally.add(r["cls"], item, nontrivial_key=rec["id"] if rec["nt"] else None)
+    return finish(ctx, tally, samples=[scns[len(scns) // 2]], traces=len(cls),
+                  assumptions=["graphs are materialised as real rule-file metadata (tufv02, and tufv01 loaded with migration) with "
+                               "git: or file: patterns realising the specification's match table (checked against fnmatch at start)",
+                               "exhaustive up to 3 rules in total over at most 3 files; larger graphs are not explored yet"])
+
+
 CHECKS = {
+    "C06": c06,
     "C05": c05,
     "C16": c16,
     "C03": c03,
